@@ -2,7 +2,7 @@
    argument tokens in, an outcome and result tokens out.  All calls into the
    models are made here, in Gallina; the hand-written OCaml only tokenises. *)
 From Coq Require Import String Ascii.
-From Dryoc Require Import Lib.Outcome Impl.Blake2b Impl.Kdf Impl.Poly1305 Impl.Hashes Impl.SecretBox Impl.SecretStream Impl.Scalarmult Impl.PwhashStr Impl.Serde Impl.Rng.
+From Dryoc Require Import Lib.Outcome Impl.Blake2b Impl.Kdf Impl.Poly1305 Impl.Hashes Impl.SecretBox Impl.SecretStream Impl.Scalarmult Impl.PwhashStr Impl.Serde Impl.Rng Impl.Sign.
 Open Scope Z_scope.
 
 Inductive tok :=
@@ -174,6 +174,28 @@ Definition dispatch (op : string) (args : list tok) : option (outcome (list tok)
         let '(outs, c') := RngImpl.run stream (Z.to_nat c) ops' in
         Some (Ok [TL (map TB outs); TI (Z.of_nat c')])
     | _ => None end
+  else if String.eqb op "sign.seed_keypair" then
+    match args with [TB seed] => let '(pk, sk) := SignImpl.seed_keypair seed in Some (Ok [TB pk; TB sk]) | _ => None end
+  else if String.eqb op "sign.detached" then
+    match args with [TI ph; TB m; TB sk] => Some (Ok [TB (SignImpl.sign_detached (negb (ph =? 0)) m sk)]) | _ => None end
+  else if String.eqb op "sign.verify_detached" then
+    match args with [TI ph; TB sig; TB m; TB pk] => Some (outu (SignImpl.verify_detached (negb (ph =? 0)) sig m pk)) | _ => None end
+  else if String.eqb op "sign.combined" then
+    match args with [TI smlen; TB m; TB sk] => Some (out1 (SignImpl.sign_combined (Z.to_nat smlen) m sk)) | _ => None end
+  else if String.eqb op "sign.open" then
+    match args with [TI mlen; TB sm; TB pk] => Some (out1 (SignImpl.sign_open (Z.to_nat mlen) sm pk)) | _ => None end
+  else if String.eqb op "sign.ph" then
+    match args with [cs; TB sk] => Some (Ok [TB (SignImpl.sign_ph (tok_chunks cs) sk)]) | _ => None end
+  else if String.eqb op "sign.verify_ph" then
+    match args with [cs; TB sig; TB pk] => Some (outu (SignImpl.verify_ph (tok_chunks cs) sig pk)) | _ => None end
+  else if String.eqb op "sign.pk_to_curve25519" then
+    match args with [TB pk] => Some (out1 (SignImpl.pk_to_curve25519 pk)) | _ => None end
+  else if String.eqb op "sign.sk_to_curve25519" then
+    match args with [TB sk] => Some (Ok [TB (SignImpl.sk_to_curve25519 sk)]) | _ => None end
+  else if String.eqb op "box.seed_keypair" then
+    match args with [TB seed] => let '(pk, sk) := SignImpl.box_seed_keypair seed in Some (Ok [TB pk; TB sk]) | _ => None end
+  else if String.eqb op "kx.seed_keypair" then
+    match args with [TB seed] => Some (omap (fun p => [TB (fst p); TB (snd p)]) (SignImpl.kx_seed_keypair seed)) | _ => None end
   else if String.eqb op "stream.init" then
     match args with
     | [TB header; TB key] => Some (Ok (st_toks (init_c header key)))
